@@ -33,6 +33,39 @@ def chain_snapshots(ctx, rule, chain_field, what):
                    'the nested blueprint is queued in the arm that visits it (%s), inside the component loop (%s), with a clone of the %s taken there (%s): '
                    'registrations made later in the parent cannot reach it' % (sorted(g) if g else None, in_loop, what, in_arm))
     ctx.floor(rule, 'QueueItem constructions in _process_blueprint', n, 1)
+    # `bp.routes(from![..])`: the routes are resolved later, with the chains recorded at the point of the call
+    field = chain_field.replace('current_', '')
+    m = 0
+    for bb, j, st in b.all_assigns():
+        rv = st['rv']
+        if rv['k'] == 'agg' and rv.get('ak') == 'adt' and strip_generics(rv['adt']).endswith('::ImportKind') and rv.get('var') == 'Routes' and field in rv.get('fields', []):
+            m += 1
+            g = guard_context(b, bb).get(COMP)
+            pl = op_place(rv['ops'][rv['fields'].index(field)])
+            sl, _ = backward_slice(b, pl['l'], defs, through_calls=False) if pl else ([], set())
+            clones = [(cb, node) for cb, _, node in sl if node.get('k') == 'call' and callee(node) in CLONERS]
+            in_arm = bool(clones) and all('RoutesImport' in (guard_context(b, cb).get(COMP) or set()) and 'NestedBlueprint' not in (guard_context(b, cb).get(COMP) or set())
+                                           for cb, _ in clones)
+            in_loop = bb in b.reachable(b.succ(bb))
+            ctx.ob(rule, 'routes-import-snapshot|%s' % field, bool(g) and 'RoutesImport' in g and in_arm and in_loop, b.loc(bb, st),
+                   'the Routes import is recorded in the arm that visits it (%s), inside the component loop (%s), with a clone of the %s taken there (%s): '
+                   'a middleware/observer registered after `bp.routes(..)` cannot reach the imported routes' % (sorted(g) if g else None, in_loop, what, in_arm))
+    ctx.floor(rule, 'ImportKind::Routes constructions in _process_blueprint', m, 1)
+
+
+def chain_always_pushed(ctx, rule, fns, what):
+    """each registration function appends the component it interned to the chain it was given, on every path to its return"""
+    for fn in fns:
+        b = ctx.need(rule, fn, ctx.fb.body('pavexc', BP + fn))
+        if b is None:
+            continue
+        pushes = [bb for bb, t in b.calls() if (callee(t) or '').endswith('Vec::push') and t['aty']
+                  and t['aty'][0].startswith('&mut alloc::vec::Vec<la_arena::Idx<pavexc::compiler::analyses::user_components::component::UserComponent>>')]
+        rets = set(b.return_blocks())
+        escaped = sorted(b.reachable_from_entry(avoid=pushes) & rets) if pushes else sorted(rets)
+        ctx.ob(rule, 'always-appended|%s' % fn, bool(pushes) and not escaped, b.loc(pushes[0]) if pushes else b.loc(),
+               '%s appends to the %s on every path to its return: %s%s' % (fn, what, bool(pushes) and not escaped,
+                                                                          '' if not escaped else ' — a return (bb%s) is reachable without the push: the registration is dropped' % escaped))
 
 
 def chain_only_pushed(ctx, rule, ty_marker='UserComponent'):
